@@ -840,11 +840,23 @@ class TlvModel(metaclass=TlvModelMeta):
                     field_pos = i
                     offset += length
 
-                    offset_btl = offset
-                    typ, size_typ = parse_tl_num(wire, offset)
-                    offset += size_typ
-                    length, size_len = parse_tl_num(wire, offset)
-                    offset += size_len
+                    while True:
+                        if offset >= len(wire):
+                            raise DecodeError(f'the value of a map entry of type {typ} is missing')
+                        offset_btl = offset
+                        typ, size_typ = parse_tl_num(wire, offset)
+                        offset += size_typ
+                        length, size_len = parse_tl_num(wire, offset)
+                        offset += size_len
+                        if offset + length > len(wire) and not cls._allow_length_overrun:
+                            raise IndexError(f'the Length of the field of type {typ} exceeds the size of wire')
+                        if typ == cur_field.value_type.type_num:
+                            break
+                        # Not the value: ignore it if it is non-critical, like anywhere else
+                        if (typ & 1) == 1 and not ignore_critical:
+                            raise DecodeError(f'a critical field of type {typ} is unrecognized, '
+                                              f'redundant or out-of-order')
+                        offset += length
 
                     val = cur_field.parse_value(ret, markers, wire, offset, length, offset_btl)
                     cur_field.__set__(ret, val)
